@@ -156,6 +156,22 @@ CHECKS = {
                 "permission on every path and removes exhausted ones. Does NOT decide forged chains as values.",
         "note": _BASE_NOTE + "Two findings are listed in KNOWN_FINDINGS.txt (msg-psid, msg-validity): pinned by mocked tests.",
     },
+    "C01": {
+        "technique": "static analysis: codec-length vs slice-constant agreement, keyword forwarding (provenance) rules across "
+                     "BTP<->GN, guard facts on delivery / emission sinks, location-service buffering protocol",
+        "text": "Decides: every slice a consumer applies (packet[0:N] / packet[N:] in the dispatcher and the 8 handlers, the 4 "
+                "media-dependent SHB octets, BTP data[4:]) equals the wire length of the codec it strips (lengths from the C02 "
+                "layout tables); the handler table is indexed by the destination port decoded from this packet's BTP header and "
+                "the callback receives the decoded ports plus payload/PV/transport type of the GN indication; every "
+                "GNDataRequest keyword is fed by the same-named BTPDataRequest attribute on both BTP branches and the GN payload "
+                "is <BTP header>.encode() + request.data; every GN indication carries the residual payload, decoded SO PV, NH "
+                "and TC; unicast delivery only when DE address = own address, up-call only with an indication; a unicast is "
+                "sent only for a known destination with no lookup pending, the triggering request is buffered on both branches "
+                "of gn_ls_request, the reply flushes the popped buffer through gn_data_request_guc, give-up discards it; all "
+                "origination functions consult the security switch (5 known findings). Does NOT decide exactly-once / order "
+                "over histories; hemisphere arithmetic is C02.signed, geometry C07, duplicates C06.",
+        "note": _BASE_NOTE + "C01.sec-switch findings are listed as open (feature-sized).",
+    },
 }
 
 NOT_APPLICABLE = {}
